@@ -126,7 +126,8 @@ def run_real(p):
                          'fit': {'reg': 1e-3, 'iters': p['iters'], 'verbose': False, 'early_stop_rfm': False}},
              max_leaf_size=p['L'], device='cpu', verbose=False, random_state=p['dseed'], split_method=p['method'],
              use_temperature_tuning=True, tuning_metric=p['metric'], temp_tuning_space=list(p['cands']), n_trees=p['trees'],
-             classification_mode=p.get('mode', 'zero_one'), split_temperature=p.get('ctor_temp'))
+             classification_mode=p.get('mode', 'zero_one'), split_temperature=p.get('ctor_temp'),
+             max_leaf_count_in_ensemble=p.get('cap', 12), keep_weight_frac_in_predict=p.get('keep', 0.99))
     m.fit(X, y, Xv, yv)
     if not hasattr(m, 'temperature_tuning_results_'):
         return None
@@ -285,6 +286,11 @@ def gen_cases(run):
                           ctor_temp=r.choice([None, None, 0.5])))
         if i % 3 == 2:
             cases[-1].update(trees=3, cut_trees=True)
+    # boundary values of the soft-routing options while tuning: one leaf per sample (cap 1), everything kept (keep 1.0), deep trees
+    for i, (task, metric) in enumerate([('reg', 'mse'), ('class', 'brier'), ('class', 'accuracy'), ('reg', 'mae')][: 3 if run.tier == 'quick' else 4]):
+        cases.append(dict(family='real-fits', task=task, metric=metric, cands=[[1.0, 0.3, 0.0, 3.0], [0.0, 0.3, 1.0, 3.0], [3.0, 0.5, 0.05]][i % 3],
+                          n=160, d=3, L=20, kernel='l2', iters=0, method='random', trees=1, classes=2, mode='zero_one', dseed=r.randint(0, 10 ** 6),
+                          ctor_temp=[1.0, None, 3.0][i % 3], cap=1, keep=[0.99, 1.0][i % 2]))
     # validation sets beyond 10,000 rows, metrics that are not row means
     for i, (task, metric) in enumerate([('reg', 'rmse'), ('class', 'f1'), ('class', 'auc')] if run.tier == 'quick' else
                                        [('reg', 'rmse'), ('class', 'f1'), ('class', 'auc'), ('reg', 'rmse'), ('class', 'auc'), ('class', 'f1')]):
